@@ -674,7 +674,10 @@ class DepReport:
     def bad(self, rule, key, where, fact, expected=None, direction=None, fn=None, why=None):
         self.instances.append(key)
         if key in self.known:
-            return      # a recorded finding of the home property: reported (KNOWN-FINDING) by that property's check
+            # a recorded finding of the home property: reported (KNOWN-FINDING) by that property's check
+            self.parent.assume(f'the dependency {self.home} carries the recorded known finding {key} (reported as KNOWN-FINDING by the '
+                               f'check of {self.home}; inputs that exercise it are outside what this check decides)')
+            return
         if self.prop in SAFETY_PROPS and direction and direction.startswith('pessimistic-only'):
             self.n_ok += 1      # the tight side of a two-sided law: cannot make a safety bound optimistic
             return
@@ -701,7 +704,8 @@ class DepReport:
         pass
 
     def assume(self, *a):
-        pass
+        if a and 'carries the recorded known finding' in str(a[0]):
+            self.parent.assume(*a)
 
     def undecided_note(self, *a, **k):
         pass
